@@ -26,6 +26,8 @@ def closed(t):
     k = t["t"]
     if k in ("param", "dyn", "?"):
         return False
+    if k == "adt" and t["n"] == "Self":      # stands for the impl's for-type: not a fixed type unless substituted (self_inst)
+        return False
     if k == "tuple":
         return all(closed(x) for x in t["ts"])
     if k == "adt":
@@ -37,6 +39,20 @@ def closed(t):
     return True
 
 
+def self_inst(t, for_ty):
+    """t with `Self` replaced by the impl's for-type"""
+    k = t["t"]
+    if k == "adt":
+        return for_ty if t["n"] == "Self" and not t["as"] else dict(t, **{"as": [self_inst(x, for_ty) for x in t["as"]]})
+    if k == "tuple":
+        return dict(t, ts=[self_inst(x, for_ty) for x in t["ts"]])
+    if k in ("vec", "ref", "array"):
+        return dict(t, e=self_inst(t["e"], for_ty))
+    if k == "fn":
+        return dict(t, ps=[self_inst(x, for_ty) for x in t["ps"]], r=self_inst(t["r"], for_ty))
+    return t
+
+
 class Ctx:
     def __init__(self, prog):
         self.sigs = dict(BUILTIN_SIGS)
@@ -46,7 +62,7 @@ class Ctx:
         for trait, ty, methods, gens in prog.impls:
             if trait is None and not gens:
                 for m, params, ret, body in methods:
-                    self.sigs[f"inherent#{tykey(ty).lstrip('%')}#{m}"] = ([t for _, t in params], ret)
+                    self.sigs[f"inherent#{tykey(ty).lstrip('%')}#{m}"] = ([self_inst(t, ty) for _, t in params], self_inst(ret, ty))
         self.structs = {n: fields for n, gens, fields, _ in prog.structs if not gens}
         self.enums = {n: dict(variants) for n, gens, variants, _ in prog.enums if not gens}
         self.traits = {n: {m: (ps, r) for m, ps, r in methods} for n, methods in prog.traits}
@@ -173,7 +189,7 @@ def roots(prog):
         yield ("fn", i), body, ret
     for i, (trait, ty, methods, gens) in enumerate(prog.impls):
         for j, (m, params, ret, body) in enumerate(methods):
-            yield ("impl", i, j), body, ret
+            yield ("impl", i, j), body, self_inst(ret, ty)
 
 
 def enumerate_mutations(prog):
